@@ -290,6 +290,30 @@ def _translate_all_expression_to_a_module(
 
 
 # noinspection PyTypeChecker
+def _is_plain_lookup(node: ast.expr) -> bool:
+    """
+    Check that re-computing the ``node`` only looks up names and constants and combines them with boolean operations.
+
+    Such a re-computation can not run any user code (as opposed to, *e.g.*, getting an attribute which is a property,
+    a subscription or arithmetics on user-defined types).
+    """
+    return all(
+        isinstance(
+            a_node,
+            (
+                ast.Name,
+                ast.Constant,
+                ast.BoolOp,
+                ast.And,
+                ast.Or,
+                ast.Load,
+                ast.expr_context,
+            ),
+        )
+        for a_node in ast.walk(node)
+    )
+
+
 class Visitor(ast.NodeVisitor):
     """
     Traverse the abstract syntax tree and recompute the values of each node defined by the function frame.
@@ -656,6 +680,11 @@ class Visitor(ast.NodeVisitor):
         placeholder_observed = False
 
         for value_node in node.values:
+            if placeholder_observed and not _is_plain_lookup(value_node):
+                # (Inside a comprehension, see below.) Python might have skipped this operand; we re-compute it for
+                # the report only if that can not run any user code.
+                continue
+
             value = self.visit(value_node)
 
             # Please see "NOTE ABOUT PLACEHOLDERS AND RE-COMPUTATION"
@@ -697,6 +726,12 @@ class Visitor(ast.NodeVisitor):
 
         result = None  # type: Optional[Any]
         for i, (comparator_node, op) in enumerate(zip(node.comparators, node.ops)):
+            if i > 0 and placeholder_observed and not _is_plain_lookup(comparator_node):
+                # (Inside a comprehension, see below.) The left operand and the first comparator are always evaluated,
+                # but Python might have skipped the later ones; we re-compute them for the report only if that
+                # can not run any user code.
+                continue
+
             comparator = self.visit(node=comparator_node)
 
             # Please see "NOTE ABOUT PLACEHOLDERS AND RE-COMPUTATION"
